@@ -31,11 +31,15 @@ def run(ck, ctx):
                      "type; the only manual Serialize/Deserialize (SDS) writes raw bytes and reads raw bytes in every serializer")
     ck.rule("R14.6", "damage ends decoding: the WAL reader stops at the first undecodable entry and only yields entries that passed length "
                      "and CRC validation (shared with C10 R10.1)")
+    ck.rule("R14.7", "what the writer can write the reader can read back: the WAL entry decoder rejects a frame only for truncation or checksum "
+                     "mismatch, never for a size or shape limit the encoder/appender does not enforce (shared with C10 R10.6)")
     ck.nd("round-trip equality for all values (derive-generated serde and bincode/serde_json are trusted); detection probability of CRC32")
     for cfg in ctx.configs:
         prog = ctx.prog(cfg)
         ck.configs.append(cfg)
         ck.fn_count += len(prog.fns)
+        from . import c10
+        c10.r106(ck, prog, cfg, "R14.7")
         _layouts(ck, prog, cfg)
         _wal_layout(ck, prog, cfg)
         _r144(ck, prog, cfg)
